@@ -445,7 +445,8 @@ def run_lifecycle_case(prog, params):
             sr.do(s_)
         tail = ['hflush h', 'hdrop h'] if mode != 'open' else ['hread h 2', 'hseek h end 0', 'hread h 1', 'hdrop h']
         seen = {}
-        for s_ in tail + ['exists df', 'read_dir d', 'walk_dir R', 'metadata df', 'read df 2']:
+        # observers first (their answers are used below), then mutators on whatever the late flush left behind
+        for s_ in tail + ['exists df', 'read_dir d', 'walk_dir R', 'metadata df', 'read df 2', 'remove_file df', 'create_dir d', 'write df 00', 'remove_dir_all d']:
             sr.do(s_)
             o = sr.last
             seen[s_.split()[0]] = o
